@@ -3,6 +3,8 @@ use crate::framework::Monitor;
 pub mod behav;
 pub mod c02;
 pub mod c12;
+pub mod c14;
+pub mod c14_fmt;
 pub mod exec;
 pub mod textmon;
 pub mod triggers;
@@ -16,6 +18,7 @@ pub fn make(id: &str) -> Option<Box<dyn Monitor>> {
         "C02" => Some(Box::new(c02::C02::default())),
         "C03" => Some(Box::new(textmon::C03::default())),
         "C18" => Some(Box::new(textmon::C18::default())),
+        "C14" => Some(Box::new(c14::C14::default())),
         "C12" => Some(Box::new(c12::C12::default())),
         _ => None,
     }
